@@ -154,6 +154,11 @@ func ZZ_C15_trie() { zzTrieCheck(zzvt.Range("entries", 0, 3), 1) }
 //zz:tier=thorough workers=16 paths=200000
 func ZZ_C15_trie_4() { zzTrieCheck(4, 1) }
 
+// ZZ_C15_trie_mid: two entries whose keys share a 38-bit prefix (beyond the first four key
+// bytes) or split at the root.
+//zz:workers=8 paths=20000
+func ZZ_C15_trie_mid() { zzTrieCheck(2, 4) }
+
 // ZZ_C15_trie_deep: two or three entries whose keys share a 246-bit prefix (the arbitrary low
 // bits sit in the last key byte).
 //zz:tier=thorough workers=16 paths=20000
